@@ -272,12 +272,14 @@ def r155(prog, chk):
     adds = [c for c in calls_named(f, "add") if "modified" in T(c.func.value)]
     ok = len(adds) == 1
     if ok:
-        iff = ix.parent(ix.enclosing_stmt(adds[0]))
-        ok = isinstance(iff, ast.If) and isinstance(iff.test, ast.BoolOp) and isinstance(iff.test.op, ast.And) and recs[0] in iff.test.values and any(T(v).startswith("self.include(") for v in iff.test.values) \
-            and T(iff.test.values[0]).startswith("self.include(")
+        fs_ = facts(prog, f, adds[0])
         bname = T(adds[0].args[0])
-        skip = [s for s in loop[0].body if isinstance(s, ast.If) and any(isinstance(x, ast.Continue) for x in s.body)]
-        ok = ok and len(skip) == 1 and isinstance(skip[0].test, ast.Compare) and isinstance(skip[0].test.ops[0], ast.In) and T(skip[0].test.left) == bname and "modified" in T(skip[0].test.comparators[0])
+        inc_true = any(o == "truthy" and l.startswith("self.include(") for o, l, r in fs_)
+        rec_true = any(o == "truthy" and l == T(recs[0]) for o, l, r in fs_)
+        # the recursion only runs for included bases (short circuit: include(...) and filter(...))
+        inc_first = any(g.polarity is True and isinstance(g.test, ast.Call) and T(g.test.func) == "self.include" for g in may_conds(prog, f, recs[0]))
+        not_yet = any(o == "notin" and l == bname and "modified" in r for o, l, r in fs_) and any(o == "notin" and l == bname and "modified" in r for o, l, r in facts(prog, f, recs[0]))
+        ok = inc_true and rec_true and inc_first and not_yet
     chk.ob("R15.5", f"{f.short}|a base is marked modified iff it is included and was transformed; already modified bases are skipped", ok, where(f, adds[0]) if adds else where(f), detail="if self.include(base) and self.filter(base): modified.add(name)",
            message=f"{f.short}: bases are marked as transformed without being transformed (or transformed twice): component compensation is wrong")
     pen = [c for c in A.body_nodes(f.node) if isinstance(c, ast.Call) and A.callee_name(c) == "TransformPointPen"]
